@@ -124,3 +124,44 @@ Proof.
   rewrite (Hspec Hv (maxInt32_short _ Hlen)). f_equal; lia.
 Qed.
 End Secp.
+
+(* ---------- the two models of the shared Go functions agree ----------
+   UpdateEIP155 / UpdateEIP2930 of pkg/secp256k1/signer.go are modelled twice: here on triples
+   (Tx/Model.v, with big.Int.Int64() as the two's-complement wrap of the integer) and in Secp/Model.v on
+   a record (with Int64() computed as math/big does: low 64 bits of the magnitude, then negated).
+   They are the same functions, for every V including those outside int64. *)
+Lemma wrap_form_T x : exists k, Tx.Model.wrap64 x = (x + 2 ^ 64 * k)%Z /\ (- 2 ^ 63 <= Tx.Model.wrap64 x < 2 ^ 63)%Z.
+Proof.
+  unfold Tx.Model.wrap64. exists (- ((x + 2 ^ 63) / 2 ^ 64))%Z.
+  pose proof (Z.div_mod (x + 2 ^ 63) (2 ^ 64) ltac:(discriminate)).
+  pose proof (Z.mod_pos_bound (x + 2 ^ 63) (2 ^ 64) ltac:(reflexivity)). lia.
+Qed.
+
+Lemma wrap_form_S x : exists k, SM.wrap64 x = (x + 2 ^ 64 * k)%Z /\ (- 2 ^ 63 <= SM.wrap64 x < 2 ^ 63)%Z.
+Proof.
+  rewrite SP.wrap64_spec. unfold SM.two63, SM.two64. exists (- ((x + 9223372036854775808) / 18446744073709551616))%Z.
+  pose proof (Z.div_mod (x + 9223372036854775808) 18446744073709551616 ltac:(discriminate)).
+  pose proof (Z.mod_pos_bound (x + 9223372036854775808) 18446744073709551616 ltac:(reflexivity)). lia.
+Qed.
+
+Lemma big_int64_is_wrap64 z : SM.big_int64 z = Tx.Model.wrap64 z.
+Proof.
+  rewrite SP.big_int64_spec. cbv zeta.
+  destruct (wrap_form_T z) as (k & E & R). rewrite E in *.
+  pose proof (Z.div_mod (Z.abs z) SM.two64 ltac:(discriminate)) as D.
+  destruct (wrap_form_S (Z.abs z mod SM.two64)) as (k1 & E1 & R1).
+  unfold SM.two64 in *.
+  destruct (Z.ltb_spec z 0).
+  - destruct (wrap_form_S (- SM.wrap64 (Z.abs z mod 18446744073709551616))) as (k2 & E2 & R2).
+    rewrite E2 in *. rewrite E1 in *. lia.
+  - rewrite E1 in *. lia.
+Qed.
+
+Lemma UpdateEIP2930_models_agree sg : untriple (UpdateEIP2930 sg) = SM.UpdateEIP2930 (untriple sg).
+Proof.
+  destruct sg as [[v r] s]. unfold UpdateEIP2930, SM.UpdateEIP2930, untriple. cbn [SM.sV SM.sR SM.sS].
+  rewrite big_int64_is_wrap64. destruct ((wrap64 v =? 27)%Z || (wrap64 v =? 28)%Z); reflexivity.
+Qed.
+
+Lemma UpdateEIP155_models_agree sg chain : untriple (UpdateEIP155 sg chain) = SM.UpdateEIP155 (untriple sg) chain.
+Proof. destruct sg as [[v r] s]. reflexivity. Qed.
